@@ -544,3 +544,4 @@ def values(chk, repo):
 # added rules (appended to the explanation the evidence file carries)
 EXPLANATION += (" " + 'Added during the build (DESIGN.md 4.31, second table): (R08.6) who-may-decode rule; odd-size formats in the layout family; sign-extension tables of C01 shared (what the program reads is what was stored).')
 EXPLANATION += (" Added after wave 8: (R08.6) who may encode: map values are written from user space by the descriptors' __set__ and TheDict.__setitem__ only, or by helpers only they call.")
+EXPLANATION += (' Added after wave 9: (R08.7) DeviceVar goes to the map for exactly the sync group classes that are programs (shared with C29).')
